@@ -8,7 +8,7 @@ general fact that a byte the skip iterators call a digit (`is_digit`, mantissa r
 `exponent predicate ∈ {i, il, ic, ilc} → mantissa_radix ≤ exponent_radix`.
 `sepCfg_of_valid`: the one-byte facts follow from `format.is_valid()`, valid `Options` and
 `is_valid_options_punctuation`, except the three things the validation does not look at: ASCII case folding of the
-exponent / base-suffix character against the separator, the base prefix (excluded), and the radix condition.
+exponent / base-prefix / base-suffix character against the separator, and the radix condition.
 -/
 set_option linter.unusedSectionVars false
 set_option linter.unusedSimpArgs false
@@ -71,19 +71,19 @@ theorem isSep_eq (c : Cfg) (x : Nat) (h : c.isSep x = true) : x = c.digitSeparat
 
 /-- `SepCfg` from one-byte facts -/
 theorem sepCfg_of (c : Cfg) (o : POpts) (hrel : Rel c) (hfmt : c.feats.format = true) (hsep : c.digitSeparator ≠ 0)
-    (hrad : c.feats.powerOfTwo = false → c.mantissaRadix ≤ 10) (hnp : c.basePrefix = 0) (hr : 1 ≤ c.mantissaRadix)
+    (hrad : c.feats.powerOfTwo = false → c.mantissaRadix ≤ 10) (hr : 1 ≤ c.mantissaRadix)
     (hsm : charToDigit c.digitSeparator c.mantissaRadix = none)
     (hse : charToDigit c.digitSeparator c.exponentRadix = none)
     (hexp : digitLookB c .exponent = true → c.mantissaRadix ≤ c.exponentRadix)
     (hdp : o.dp ≠ c.digitSeparator)
     (hexpc : matchByte o.exp (c.caseSensitiveExponent && c.feats.format) (some c.digitSeparator) = false)
     (hsuf : matchByte c.baseSuffix c.caseSensitiveBaseSuffix (some c.digitSeparator) = false)
+    (hpre : matchByte c.basePrefix c.caseSensitiveBasePrefix (some c.digitSeparator) = false)
     (hdpd : charToDigit o.dp c.mantissaRadix = none) : SepCfg c o where
   rel := hrel
   fmt := hfmt
   bytes := by simp [Cfg.bytesContiguous, hsep]
   rad := hrad
-  noPrefix := hnp
   radix := hr
   sepM := fun x hx => by rw [isSep_eq c x hx]; exact hsm
   sepE := fun x hx => by rw [isSep_eq c x hx]; exact hse
@@ -95,6 +95,7 @@ theorem sepCfg_of (c : Cfg) (o : POpts) (hrel : Rel c) (hfmt : c.feats.format = 
     | true => exact absurd (isSep_eq c _ h) hdp
   expSep := fun x hx => by rw [isSep_eq c x hx]; exact hexpc
   sufSep := fun x hx => by rw [isSep_eq c x hx]; exact hsuf
+  preSep := fun x hx => by rw [isSep_eq c x hx]; exact hpre
   dpDig := hdpd
 
 /-! ## from the validation of `api.rs` -/
@@ -162,17 +163,19 @@ theorem validRadix_facts (feats : Features) (r : Nat) (hfeat : feats.radix = tru
       exact ⟨by omega, fun _ => by omega⟩
 
 /-- **`SepCfg` for a validated call** (`parse_partial_with_options` accepted format and options): beyond validity only
-(1) a separator byte and no base prefix, (2) the radix condition for digit-seeking exponent predicates, (3) the
-separator is not the other ASCII case of the exponent / base-suffix character -/
+(1) a separator byte, (2) the radix condition for digit-seeking exponent predicates, (3) the separator is not the
+other ASCII case of the exponent / base-prefix / base-suffix character -/
 theorem sepCfg_of_valid (feats : Features) (fmt : Format) (o : POpts)
     (hfeat : feats.radix = true → feats.powerOfTwo = true) (hf : feats.format = true)
     (h1 : optionsError o = none) (h2 : formatError feats fmt = none)
     (h3 : isValidOptionsPunctuation feats fmt o.exp o.dp = true)
-    (hsep : fmt.digitSeparator ≠ 0) (hnp : fmt.basePrefix = 0)
+    (hsep : fmt.digitSeparator ≠ 0)
     (hexp : digitLookB ⟨feats, fmt, false⟩ .exponent = true → fmt.mantissaRadix ≤ fmt.exponentRadix)
     (hexpc : matchByte o.exp ((⟨feats, fmt, false⟩ : Cfg).caseSensitiveExponent && feats.format)
       (some fmt.digitSeparator) = false)
     (hsuf : matchByte (⟨feats, fmt, false⟩ : Cfg).baseSuffix (⟨feats, fmt, false⟩ : Cfg).caseSensitiveBaseSuffix
+      (some fmt.digitSeparator) = false)
+    (hpre : matchByte (⟨feats, fmt, false⟩ : Cfg).basePrefix (⟨feats, fmt, false⟩ : Cfg).caseSensitiveBasePrefix
       (some fmt.digitSeparator) = false) : SepCfg ⟨feats, fmt, false⟩ o := by
   obtain ⟨hvr, hvs⟩ := formatError_sepByte feats fmt hf h2
   obtain ⟨hr1, hrad⟩ := validRadix_facts feats _ hfeat hvr
@@ -215,8 +218,9 @@ theorem sepCfg_of_valid (feats : Features) (fmt : Format) (o : POpts)
             · omega
           exact charToDigit_none_mono _ _ _ hdpb (by split <;> omega) hdpc.2.1.1.1
         exact sepCfg_of ⟨feats, fmt, false⟩ o hrel hf (by simpa [Cfg.digitSeparator, hf] using hsep) hrad
-          (by simpa [Cfg.basePrefix, hf] using hnp) hr1 (by simpa [Cfg.digitSeparator, Cfg.mantissaRadix, hf] using hsm)
+          hr1 (by simpa [Cfg.digitSeparator, Cfg.mantissaRadix, hf] using hsm)
           (by simpa [Cfg.digitSeparator, Cfg.exponentRadix, hf] using hse) hexp (by simpa [Cfg.digitSeparator, hf] using hdpne)
-          (by simpa [Cfg.digitSeparator, hf] using hexpc) (by simpa [Cfg.digitSeparator, hf] using hsuf) hdpd
+          (by simpa [Cfg.digitSeparator, hf] using hexpc) (by simpa [Cfg.digitSeparator, hf] using hsuf)
+          (by simpa [Cfg.digitSeparator, hf] using hpre) hdpd
 
 end LexVerif.Proof.C11
